@@ -135,7 +135,7 @@ def run_mutants(props, only, budget, with_pytest):
             continue
         if not set(owners) & set(props):
             continue
-        dst = f"/dev/shm/rtverif-mut-{name}"
+        dst = f"/dev/shm/rtcopy-mut-{name}"
         try:
             make_copy(dst)
             if not apply(dst, path, old, new):
